@@ -114,6 +114,11 @@ func (s *Schema) AddType(name string, sc jschema.Schema) (err error) {
 			return fmt.Errorf("load added type: %w", err)
 		}
 
+		if typ.inner.RootNode() == nil {
+			// Everything that follows a type reference relies on the root node.
+			return errors.NewDocumentError(typ.file, errors.Format(errors.ErrEmptyType, name))
+		}
+
 		s.inner.AddNamedType(name, typ.inner, s.file, 0)
 	case *regex.Schema:
 		pattern, err := typ.Pattern()
